@@ -579,6 +579,39 @@ def rule_r11(ctx):
         raise AnalysisBroken("only %d pipe_start functions found" % n)
 
 
+def rule_r12(ctx):
+    r = ctx.rule("C11.R12", "T9", "both ends configure a new websocket connection alike: the per-connection policy fields that the listener "
+                 "side copies from its endpoint (receive limit, frame limit, stream / text modes) are also copied by the dialer "
+                 "side from its endpoint -- a limit that one side forgets is simply not enforced on the connections it creates "
+                 "(NNG_OPT_RECVMAXSZ of a dialing socket)", floor=4)
+    prog = ctx.prog
+    sets = {"nni_ws_listener": {}, "nni_ws_dialer": {}}
+    for f in prog.fns_in("supplemental/websocket/websocket.c"):
+        if f.cfg_failed:
+            continue
+        for t in f.assigns():
+            l = t.node["lhs"]
+            e = f.expand(t.node["rhs"])
+            if l.get("k") != "mem" or (last_field(l) or "").split(".")[0] != "nni_ws" or e is None or e.get("k") != "mem":
+                continue
+            src = (last_field(e) or ".").split(".")[0]
+            if src in sets:
+                sets[src].setdefault(l.get("f"), (f, t))
+    L, D = sets["nni_ws_listener"], sets["nni_ws_dialer"]
+    if len(L) < 3 or len(D) < 3:
+        raise AnalysisBroken("the two constructors of a websocket connection were not recognised (listener copies %d fields, dialer %d)" % (len(L), len(D)))
+    for fld in sorted(set(L) | set(D)):
+        if fld in L and fld in D:
+            r.ob(D[fld][0], "%s configured on both sides" % fld)
+        else:
+            have, miss = (L, "dialer") if fld in L else (D, "listener")
+            f, t = have[fld]
+            ctx.fail(r, f, "%s copied to new connections only on the %s side" % (fld, "listener" if miss == "dialer" else "dialer"), t.line,
+                     "%s sets ws->%s from its endpoint at line %s, but the %s side never does: connections created by a %s keep the "
+                     "zero default, so the limit / mode configured on that endpoint has no effect on them"
+                     % (f.name, fld, t.line, miss, miss))
+
+
 def run(ctx):
     ctx.guard(rule_r1)
     ctx.guard(rule_r2)
@@ -591,3 +624,4 @@ def run(ctx):
     ctx.guard(rule_r9)
     ctx.guard(rule_r10)
     ctx.guard(rule_r11)
+    ctx.guard(rule_r12)
